@@ -271,6 +271,53 @@ theorem counterexample_zipmap_count254 :
     rw [decodeDumpG_footer, decodeValueG_blob_rest true pfNone 9 (by simp) wCount254 hw]
     decide +kernel
 
+/-! ### 3b. Deviation D23 — the 16-bit entry count of a ziplist saturates
+
+Redis writes `zllen = 65535` for a ziplist of 65535 *or more* entries and its own reader then walks the entries.  The
+pinned readers (`readZiplistLength` in the cupcake decoder and `ReadZiplistLength` in pkg/rdb/reader.go) took the field
+at face value and silently dropped everything behind entry 65535 (replayed on the real code, repaired by a `fix:`
+commit).  `Spec/Compact.lean` follows Redis (`min es.length 65535`), `zlWF` carries no bound on the count any more,
+and `compact_materialise` above therefore covers ziplists of every size. -/
+
+/-- the count the repaired reader arrives at is the number of entries, whatever it is -/
+theorem ziplist_count_any (es : List ZlEntry) (h : zlWF es) :
+    zlLength (serZiplist es) = .ok (es.length, serEntries 0 es ++ [0xFF]) := zlLength_ser es h
+
+/-- the pinned reader: the two count bytes, nothing else -/
+def zlLengthPinned (zl : Bytes) : Except DErr (Nat × Bytes) :=
+  match bSlice 2 (zl.drop 8) with
+  | .error e => .error e
+  | .ok (b, r) => .ok (leNat b, r)
+
+/-- on every ziplist of more than 65535 entries the pinned reader reports 65535: the rest is lost -/
+theorem counterexample_ziplist_count_pinned (es : List ZlEntry) (hl : 65535 < es.length) :
+    zlLengthPinned (serZiplist es) = .ok (65535, serEntries 0 es ++ [0xFF]) := by
+  unfold serZiplist zlLengthPinned
+  simp only [List.append_assoc]
+  have h8 : (leBytes 4 (10 + (serEntries 0 es).length + 1) ++ leBytes 4 (10 + (serEntries 0 es.dropLast).length)).length = 8 := by
+    simp [leBytes_length]
+  rw [← List.append_assoc (leBytes 4 _) (leBytes 4 _), drop_append_len _ _ 8 h8,
+    bSlice_append _ _ 2 (leBytes_length 2 _)]
+  simp only [leNat_leBytes]
+  have h256 : (256 : Nat) ^ 2 = 65536 := by decide
+  have e1 : min es.length 65535 % 65536 = 65535 := by omega
+  rw [h256, e1]
+
+/-- below the marker both readers agree -/
+theorem ziplist_count_pinned_small (es : List ZlEntry) (h : zlWF es) (hl : es.length < 65535) :
+    zlLengthPinned (serZiplist es) = zlLength (serZiplist es) := by
+  rw [zlLength_ser es h]
+  unfold serZiplist zlLengthPinned
+  simp only [List.append_assoc]
+  have h8 : (leBytes 4 (10 + (serEntries 0 es).length + 1) ++ leBytes 4 (10 + (serEntries 0 es.dropLast).length)).length = 8 := by
+    simp [leBytes_length]
+  rw [← List.append_assoc (leBytes 4 _) (leBytes 4 _), drop_append_len _ _ 8 h8,
+    bSlice_append _ _ 2 (leBytes_length 2 _)]
+  simp only [leNat_leBytes]
+  have h256 : (256 : Nat) ^ 2 = 65536 := by decide
+  have e1 : min es.length 65535 % 65536 = es.length := by omega
+  rw [h256, e1]
+
 /-! ### 4. plain values as Redis writes them, and the payloads of the tool's own parser -/
 
 /-- `plain_materialise`: types 0–5 with ANY string-object encoding per element (raw in any length form, int8/16/32,
@@ -362,11 +409,11 @@ theorem exWrap_ok : strOkC exWrap := by
 
 example : exList.WF ∧ strOkC exWrap ∧ Spec.Rdb.logical exWrap = serCompact exList ∧
     logicalOf pfNone exList = some (.list [[97, 97, 97, 97, 97, 97, 97, 97], [45, 51, 50, 55, 54, 57], [49, 50]]) := by
-  refine ⟨⟨by decide, by decide⟩, exWrap_ok, by decide +kernel, by decide +kernel⟩
+  refine ⟨by simp only [exList, Compact.WF]; decide, exWrap_ok, by decide +kernel, by decide +kernel⟩
 
 example : decodeDump pfNone (wrapDump exWrap 10) =
     .ok (.list [[97, 97, 97, 97, 97, 97, 97, 97], [45, 51, 50, 55, 54, 57], [49, 50]]) :=
-  compact_materialise pfNone exList ⟨by decide, by decide⟩ _ (by decide +kernel) exWrap exWrap_ok (by decide +kernel)
+  compact_materialise pfNone exList (by simp only [exList, Compact.WF]; decide) _ (by decide +kernel) exWrap exWrap_ok (by decide +kernel)
 
 /-- a zipmap with free bytes after a value and an empty field name -/
 example : (Compact.zipmap [{ k := [], v := [1, 2], free := [9, 9, 9] }, { k := [107], v := [], free := [] }]).WF := by
@@ -386,8 +433,8 @@ example : qlWF .b14 [⟨.raw .b6 (serZiplist [.int false .i8 (-128)]), [.int fal
   intro n hn
   simp only [List.mem_cons, List.not_mem_nil, or_false] at hn
   rcases hn with rfl | rfl
-  · exact ⟨⟨by decide, by decide⟩, ⟨by decide +kernel, by decide +kernel⟩, rfl⟩
-  · exact ⟨⟨by decide, by decide⟩, ⟨by decide +kernel, by decide +kernel⟩, rfl⟩
+  · exact ⟨by decide, ⟨by decide +kernel, by decide +kernel⟩, rfl⟩
+  · exact ⟨by decide, ⟨by decide +kernel, by decide +kernel⟩, rfl⟩
 
 /-- a type-5 sorted set whose member is a 16-bit integer string and whose score is a NaN with payload; a hash whose
     field is LZF-compressed -/
